@@ -35,7 +35,7 @@ def build(tree):
         if kind == "fn":
             f = func.FuncOp(name, ((), ()), Region(Block(kids + [func.ReturnOp()])), visibility=vis)
             return f
-        return test.TestOp.create(regions=[Region(Block(kids))] if kids else [])
+        return test.TestOp.create(regions=[Region(Block(kids + [test.TestTermOp.create()]))] if kids else [])  # (terminated: the module must verify)
 
     return ModuleOp([mk(n) for n in tree])
 
@@ -133,7 +133,12 @@ def check_tree(tree, which):
 
     tree = _detuple(tree)
     top = build(tree)
-    uniq = unique_names(top)
+    # "on every verified module": the REAL verifier decides which modules the cached lookup is compared on (not this harness's own idea of validity)
+    try:
+        top.verify()
+        uniq = True
+    except Exception:  # noqa: BLE001
+        uniq = False
     coll = SymbolTableCollection()
     refs = []
     for root in NAMES[:2] + [""]:  # the empty string is a legal symbol name
